@@ -757,6 +757,13 @@ impl Model {
             self.apply(e);
         }
         self.d6_narrow = true;
+        // D17: the column after NEL. The screen-side statements (C06) pin the row and the scroll; the
+        // documented behaviour is "same as LF" (column kept unless LNM), ECMA-48 says CR + LF. Both are
+        // accepted when NEL is the last thing in the stream (C03 still pins the documented event).
+        if s.ends_with("\x1bE") && !self.dc.all && self.dc.cursor_x_alt.is_none() {
+            self.dc.cursor_x_alt = Some(0);
+            self.dc.why.push("D17 column after NEL");
+        }
     }
 }
 
